@@ -20,7 +20,7 @@ OPS = ("rfft", "ifft", "parseval", "fftconvolve", "correlate", "mspec")
 
 
 def REQUIRED(tier):
-    return [f"op:{o}" for o in OPS] + ["len:odd_good_size", "len:prime", "len:power_of_two", "direct_dft_checks"]
+    return [f"op:{o}" for o in OPS] + ["len:odd_good_size", "len:prime", "len:power_of_two", "direct_dft_checks", "op:rfft_after_longer"]
 
 
 def EXHAUSTIVE(tier):
@@ -46,6 +46,10 @@ def _data(rng, n, cls):
         x = np.zeros(n, dtype=np.float32)
         x[0] = 1.0
         x[-1] += 2.0
+        return x
+    if cls == "impulse_k":   # a single unit impulse at a small odd index: bins with |re| == |im| exactly
+        x = np.zeros(n, dtype=np.float32)
+        x[min(n - 1, int(rng.choice([1, 3])))] = 1.0
         return x
     x = (rng.normal(size=n) * 10 ** rng.uniform(0, 6, size=n)).astype(np.float32)
     return x
@@ -76,7 +80,7 @@ def run_case(case, ctx):
 
     for n in case["ns"]:
         rng = np.random.default_rng([case["seed"], n])
-        classes = ("normal", "constant", "impulse", "dynrange") if not case.get("big") else ("normal",)
+        classes = ("normal", "constant", "impulse", "impulse_k", "dynrange") if not case.get("big") else ("normal",)
         for cls in classes:
             x = _data(rng, n, cls)
             x64 = x.astype(np.float64)
@@ -172,5 +176,28 @@ def run_case(case, ctx):
                     ctx.nontrivial_case({"n": n, "m": m, "c": cls})
             if n >= 2:
                 ctx.nontrivial_case({"n": n, "c": cls, "op": "fft"})
+        # ---- a shorter series transformed right after a longer one that pads to the same length (stale work buffers)
+        if n >= 3 and not case.get("big"):
+            for k in (1, 2):
+                m2 = n - k
+                ya, yb = _data(rng, n, "normal"), _data(rng, m2, "normal")
+                TimeSeries(ya, _hdr(n)).rfft()
+                fsb = TimeSeries(yb, _hdr(m2)).rfft()
+                Lb = int(fsb.header.nsamples)
+                ctx.evaluated(); ctx.count("op:rfft_after_longer")
+                wantb = _dft(yb.astype(np.float64), Lb) if Lb <= 512 else np.fft.rfft(yb.astype(np.float64), Lb)
+                if np.max(np.abs(np.asarray(fsb.data).astype(np.complex128) - wantb)) > 1e-5 * float(np.linalg.norm(yb)) * max(1.0, np.log2(Lb + 1) / 4):
+                    ctx.violation("rfft-values:after-longer-series", f"rfft of a {m2}-sample series computed right after a {n}-sample one differs from its DFT (L={Lb})", {"ns": [n], "seed": case["seed"], "seq": [n, m2]})
+                    break
+        # ---- amplitude spectrum of spectra with |re| == |im|
+        if not case.get("big"):
+            from sigpyproc.fourierseries import FourierSeries
+
+            amp = rng.integers(1, 9, size=max(1, n // 2 + 1)).astype(np.float32)
+            z = (amp * rng.choice([1, -1], size=amp.size) + 1j * amp * rng.choice([1, -1], size=amp.size)).astype(np.complex64)
+            ms2 = np.asarray(FourierSeries(z, _hdr(2 * (z.size - 1) if z.size > 1 else 1)).form_spec().data, dtype=np.float64)
+            ctx.evaluated(); ctx.count("op:mspec")
+            if ms2.shape != z.shape or np.max(np.abs(ms2 - np.abs(z.astype(np.complex128)))) > 1e-5 * float(np.max(np.abs(z))):
+                ctx.violation("mspec:equal-re-im", f"n={n}: amplitude spectrum of bins with |re| == |im| differs from the modulus", {"ns": [n], "seed": case["seed"], "cls": "equal_re_im"})
         if n % 50 == 7:
             ctx.sample({"n": n, "transform_length": L, "classes": list(classes), "kernel_lengths": ms_})
